@@ -79,13 +79,14 @@ pub fn gtuple(typed: bool) -> BoxedStrategy<Tuple> {
     let ty = if typed { select(KNOWN_TYPES).prop_map(str::to_string).boxed() } else { gtype() };
     (
         ty,
-        proptest::collection::vec(gsegment(), 0..=3),
+        prop_oneof![12 => proptest::collection::vec(gsegment(), 0..=3), 1 => proptest::collection::vec(gsegment(), 4..=8)],
         gtext1(),
         proptest::option::weighted(0.6, gtext1()),
-        proptest::collection::vec((gkey(), gtext1()), 0..=3),
+        prop_oneof![12 => proptest::collection::vec((gkey(), gtext1()), 0..=3), 1 => proptest::collection::vec((gkey(), gtext1()), 4..=12)],
         prop_oneof![
             3 => Just(Vec::new()),
-            2 => proptest::collection::vec((galgorithm(), proptest::collection::vec(any::<u8>(), 0..=4)), 1..=3),
+            4 => proptest::collection::vec((galgorithm(), proptest::collection::vec(any::<u8>(), 0..=4)), 1..=3),
+            1 => proptest::collection::vec((galgorithm(), proptest::collection::vec(any::<u8>(), 0..=32)), 1..=7),
         ],
         proptest::collection::vec(gsub_segment(), 0..=3),
     )
